@@ -16,7 +16,8 @@ RULE = ("expressions from the full-grammar generator (depth <= 3/4) into which p
         "own re-rooting on decoded terms; identity (==) when no path is rooted at the variable; input not "
         "mutated. Non-trivial: >= 1 path rooted at the variable below the top and >= 1 other occurrence of "
         "the name that must stay; distinct by (tree, variable)."
-        " Long-lived process: 130-4000 (thorough: 60000) rounds in which three long-lived trees are made relative again while one-off trees pass through, each result compared with the reference for that very tree. Every case is followed by its look-alike twin (field-less operator tokens swapped, integer literals turned into strings) in the same process.")
+        " Long-lived process: 130-4000 (thorough: 60000) rounds in which three long-lived trees are made relative again while one-off trees pass through, each result compared with the reference for that very tree. Every case is followed by its look-alike twin (field-less operator tokens swapped, integer literals turned into strings) in the same process."
+        " Plus a coverage-guided campaign (atheris/libFuzzer mutating the byte buffer that Hypothesis decodes through the same strategy, the same oracle inside the target; quick 3000-4000 executions, thorough 4 x 100000-150000).")
 ASSUMPTIONS = ["nested lambdas binding the same name as the stripped variable are outside the quantifier"]
 
 VARS = ["x", "v", "it", "owner", "a"]
@@ -237,6 +238,14 @@ def nontrivial(case):
     return rooted >= 1 and other > rooted
 
 
+def fuzz_target():
+    """(strategy, fn) for the coverage-guided campaign (vp.fuzz_prop)."""
+    def fn(case):
+        r = check_with_twin(case)
+        return (r[0], r[1], case) if r else None
+    return cases(3), fn
+
+
 def plan(tier, seed, scale):
     K = 16
     total = int((10000 if tier == "quick" else 200000) * scale)
@@ -244,10 +253,17 @@ def plan(tier, seed, scale):
               "depth": 3 if tier == "quick" else 4} for i in range(K)]
     for n in ([130, 300, 600, 1500, 4000] if tier == "quick" else [130, 300, 600, 1500, 4000, 20000, 60000]):
         tasks.append({"name": "history-%d" % n, "history": n})
+    for i in range(1 if tier == "quick" else 4):
+        tasks.append({"name": "covfuzz-%d" % i, "kind": "covfuzz", "shard": i,
+                      "runs": int((3000 if tier == "quick" else 100000) * scale)})
     return tasks
 
 
 def run_task(task, seed, acc):
+    if task.get("kind") == "covfuzz":
+        from ..runner import run_covfuzz
+        run_covfuzz(__name__, task, seed, acc)
+        return
     if "history" in task:
         case = {"history": task["history"], "seed": seed}
         r = check_history(task["history"], seed)
